@@ -235,6 +235,19 @@ def verifyQuery (env : Env K) (p : Params) (index : Nat) (rounds : List (K × Ph
 def checkedArities (maxLA : Nat) (q : Query K) : Option (List Nat) :=
   q.phases.mapM fun ph => if 1 ≤ ph.logArity ∧ ph.logArity ≤ maxLA then some ph.logArity else none
 
+/-- One query of `verify_fri` after `open_input`: the fold chain (`verify_query`), then the final
+polynomial evaluated at the query's point of the final domain must equal the folded value. With no
+commit phase (`numCommits = 0`) the fold chain is empty and the first reduced opening is compared
+with the final polynomial directly. -/
+def queryCheckN (env : Env K) (p : Params) (betas : List K) (numCommits : Nat) (finalPoly : List K)
+    (total logMax logFinal : Nat) (index : Nat) (phases : List (Phase K)) (ros : List (Nat × K)) :
+    Except NErr Unit := do
+  let rounds := ((List.range numCommits).map fun i => betas.getD i 0).zip phases
+  let folded ← verifyQuery env p index rounds ros logMax logFinal
+  let domainIndex := index / 2 ^ total
+  let x := npow (env.tw logMax) (reverseBitsLen domainIndex logMax)
+  if evalPoly finalPoly x ≠ folded then throw .finalPolyMismatch
+
 /-- `verify_fri` with MMCS and PoW checks passing; `alpha`, `betas`, indices supplied. `betas`
 is indexed by commitment (the verifier samples one per commitment). -/
 def verifyFri (env : Env K) (p : Params) (alpha : K) (betas : List K)
@@ -264,11 +277,7 @@ def verifyFri (env : Env K) (p : Params) (alpha : K) (betas : List K)
   let logFinal := p.logBlowup + p.logFinalPolyLen
   for q in pf.queries do
     let ros ← openInput env p logMax q.index alpha batches q.opened
-    let rounds := ((List.range pf.numCommits).map fun i => betas.getD i 0).zip q.phases
-    let folded ← verifyQuery env p q.index rounds ros logMax logFinal
-    let domainIndex := q.index / 2 ^ total
-    let x := npow (env.tw logMax) (reverseBitsLen domainIndex logMax)
-    if evalPoly pf.finalPoly x ≠ folded then throw .finalPolyMismatch
+    queryCheckN env p betas pf.numCommits pf.finalPoly total logMax logFinal q.index q.phases ros
   return ()
 
 end
